@@ -402,6 +402,25 @@ func (u *Unit) floatToInt(x *Term, from, to types.Type) *Term {
 
 func (u *Unit) rnd(t *Term) *Term { return u.ctx.App("rnd", SReal, t) }
 
+// rndT: correctly rounded to the format of Go type typ (binary32 or binary64).
+func (u *Unit) rndT(t *Term, typ types.Type) *Term {
+	if typ != nil && basicOf(typ) != nil && basicOf(typ).Kind() == types.Float32 {
+		u.noteRnd32(t)
+		return u.ctx.App("rnd32", SReal, t)
+	}
+	u.noteRnd(t)
+	return u.rnd(t)
+}
+
+func (u *Unit) noteRnd32(exact *Term) {
+	for _, e := range u.rndArgs32 {
+		if e.String() == exact.String() {
+			return
+		}
+	}
+	u.rndArgs32 = append(u.rndArgs32, exact)
+}
+
 func (u *Unit) rfBinary(op token.Token, a, b Value, typ types.Type) (Value, *Term) {
 	x, y := a.Term, b.Term
 	fin := And(Eq(a.Spec, IntLit(0)), Eq(b.Spec, IntLit(0)))
@@ -454,8 +473,7 @@ func (u *Unit) rfBinary(op token.Token, a, b Value, typ types.Type) (Value, *Ter
 		return boolv(Ite(fin, t, Ite(anyNaN, nanRes, te))), nil
 	case token.QUO:
 		exact := mk("/", SReal, x, y)
-		r := u.rnd(exact)
-		u.noteRnd(exact)
+		r := u.rndT(exact, typ)
 		// special results
 		kind := Ite(Eq(a.Spec, IntLit(3)), IntLit(3), Ite(Eq(b.Spec, IntLit(3)), IntLit(3),
 			Ite(fin,
@@ -470,8 +488,7 @@ func (u *Unit) rfBinary(op token.Token, a, b Value, typ types.Type) (Value, *Ter
 	case token.MUL, token.ADD, token.SUB:
 		opn := map[token.Token]string{token.MUL: "*", token.ADD: "+", token.SUB: "-"}[op]
 		exact := mk(opn, SReal, x, y)
-		r := u.rnd(exact)
-		u.noteRnd(exact)
+		r := u.rndT(exact, typ)
 		// specials: only NaN/Inf propagation needed; sign rules for inf*x
 		var kind *Term
 		if op == token.MUL {
@@ -516,10 +533,17 @@ func (u *Unit) rfConvert(st *State, v Value, to types.Type) Value {
 	case v.K == KInt && isFloatT(to):
 		// exact when |n| <= 2^53, otherwise rounded
 		r := mk("to_real", SReal, v.Term)
-		lim := IntBig(new(big.Int).Lsh(big.NewInt(1), 53))
-		u.noteRnd(r)
-		return u.rfName(Value{K: KNum, T: to, Term: Ite(And(Le(Neg(lim), v.Term), Le(v.Term, lim)), r, u.rnd(r)), Spec: IntLit(0)}, "itof")
+		mant := uint(53)
+		if basicOf(to).Kind() == types.Float32 {
+			mant = 24
+		}
+		lim := IntBig(new(big.Int).Lsh(big.NewInt(1), mant))
+		return u.rfName(Value{K: KNum, T: to, Term: Ite(And(Le(Neg(lim), v.Term), Le(v.Term, lim)), r, u.rndT(r, to)), Spec: IntLit(0)}, "itof")
 	case v.K == KNum && v.Term.Sort == SReal && isFloatT(to):
+		if basicOf(to).Kind() == types.Float32 && (v.T == nil || basicOf(v.T) == nil || basicOf(v.T).Kind() != types.Float32) {
+			// narrowing to binary32 rounds
+			return u.rfName(Value{K: KNum, T: to, Term: u.rndT(v.Term, to), Spec: v.Spec}, "narrow")
+		}
 		return Value{K: KNum, T: to, Term: v.Term, Spec: v.Spec}
 	case v.K == KNum && v.Term.Sort == SReal && isIntegerT(to):
 		// gc/amd64: NaN, +-Inf and out-of-range -> MinInt64 (64-bit signed destinations)
@@ -545,24 +569,33 @@ func (u *Unit) rfConvert(st *State, v Value, to types.Type) Value {
 // rfAxioms instantiates the standard-model axioms for every rnd application
 // seen and every hint term (integers that are fixed points of rnd).
 func (u *Unit) rfAxioms(hints []*Term) []*Term {
+	ax := u.rfAxiomsFor("rnd", 53, u.rndArgs, hints)
+	if len(u.rndArgs32) > 0 {
+		ax = append(ax, u.rfAxiomsFor("rnd32", 24, u.rndArgs32, hints)...)
+	}
+	return ax
+}
+
+func (u *Unit) rfAxiomsFor(fn string, prec uint, args []*Term, hints []*Term) []*Term {
+	rndf := func(t *Term) *Term { return u.ctx.App(fn, SReal, t) }
 	var ax []*Term
-	eps := mk("/", SReal, RealLit("1.0"), RealLit(new(big.Int).Lsh(big.NewInt(1), 53).String()+".0"))
+	eps := mk("/", SReal, RealLit("1.0"), RealLit(new(big.Int).Lsh(big.NewInt(1), prec).String()+".0"))
 	abs := func(t *Term) *Term { return Ite(Ge(t, RealLit("0.0")), t, mk("-", SReal, t)) }
 	var pts []*Term
-	pts = append(pts, u.rndArgs...)
+	pts = append(pts, args...)
 	for _, h := range hints {
 		pts = append(pts, h)
 	}
-	lim := RealLit(new(big.Int).Lsh(big.NewInt(1), 53).String() + ".0")
+	lim := RealLit(new(big.Int).Lsh(big.NewInt(1), prec).String() + ".0")
 	isHint := map[string]bool{}
 	for _, h := range hints {
 		isHint[h.String()] = true
 	}
 	for _, p := range pts {
-		r := u.rnd(p)
+		r := rndf(p)
 		// relative error
 		ax = append(ax, Le(abs(mk("-", SReal, r, p)), mk("*", SReal, eps, abs(p))))
-		// integers up to 2^53 are exact (instantiated for hint points and integer-valued arguments only)
+		// integers up to 2^prec are exact (instantiated for hint points and integer-valued arguments only)
 		if p.Op == "to_real" {
 			ax = append(ax, Imp(Le(abs(p), lim), Eq(r, p)))
 		} else if isHint[p.String()] {
@@ -573,7 +606,7 @@ func (u *Unit) rfAxioms(hints []*Term) []*Term {
 	for i, p := range pts {
 		for j, q := range pts {
 			if i != j {
-				ax = append(ax, Imp(Le(p, q), Le(u.rnd(p), u.rnd(q))))
+				ax = append(ax, Imp(Le(p, q), Le(rndf(p), rndf(q))))
 			}
 		}
 	}
